@@ -158,6 +158,8 @@ func Build(s Spec) *bluemonday.Policy {
 		p = bluemonday.UGCPolicy()
 	case "strict":
 		p = bluemonday.StrictPolicy()
+	case "striptags":
+		p = bluemonday.StripTagsPolicy() // deprecated alias of StrictPolicy
 	case "literal":
 		p = &bluemonday.Policy{}
 	default:
